@@ -54,7 +54,9 @@ class JsonResource(Resource):
         dict_list = []
         for root in self.contents:
             dict_list.append(self.to_dict(root))
-        if len(dict_list) <= 1:
+        if len(dict_list) == 1:
+            # a single root is written alone; a resource without root is
+            # written as the empty list, which load reads as no root
             dict_list = dict_list[0]
 
         encoder = self.options.get(JsonOptions.ENCODER)
